@@ -14,6 +14,7 @@ import (
 	"syscall"
 	"time"
 
+	"github.com/hedzr/is/term/color"
 	"github.com/hedzr/logg/slog"
 
 	"verifharness/gen"
@@ -56,6 +57,8 @@ type c12case struct {
 	TrailingBreaks bool `json:"message_ends_in_line_breaks,omitempty"`
 	// an earlier Panic on the same logger was recovered by the application before this call
 	AfterRecoveredPanic bool `json:"after_an_earlier_recovered_panic,omitempty"`
+	// the application took the colours of the severity away: SetLevelColors(severity, NoColor, NoColor)
+	NoColours bool `json:"severity_colours_set_to_none,omitempty"`
 }
 
 // failAfterStore writes the payload through and reports an error all the same.
@@ -180,6 +183,14 @@ func c12enumerate() []c12case {
 			n++
 		}
 	}
+	// the colours of a severity are presentation: a Panic / Fatal severity without any colour terminates like any other
+	for _, b := range base {
+		if b.Format == "color" && b.Admit {
+			x := b
+			x.NoColours = true
+			out = append(out, x)
+		}
+	}
 	return out
 }
 
@@ -297,6 +308,9 @@ func c12exec(c *Ctx, out string) {
 	ctx := context.Background()
 	if cs.NilCtxKeys {
 		ctx = nil
+	}
+	if cs.NoColours {
+		slog.SetLevelColors(sev, color.NoColor, color.NoColor)
 	}
 	if cs.AfterRecoveredPanic {
 		// the application survived an earlier Panic of this logger (it recovered); the next one is like the first
@@ -545,30 +559,54 @@ func c12execNegative(c *Ctx, out string) {
 				at = ""
 			}
 		}()
-		for _, kind := range []string{"root", "child", "default"} {
-			lgL := slog.New("neg")
-			lg := lgL.Root()
-			if kind == "child" {
-				lg = lg.New("kid")
-			}
-			lg.SetWriter(f).SetErrorWriter(f).SetLevel(slog.AlwaysLevel)
-			if kind == "default" {
-				slog.SetDefault(lgL)
-			}
-			for _, e := range entryPoints() {
-				if e.pkg != (kind == "default") {
-					continue
+		negSevs := []slog.Level{slog.ErrorLevel, slog.WarnLevel, slog.InfoLevel, slog.DebugLevel, slog.TraceLevel, slog.OffLevel, slog.AlwaysLevel, slog.OKLevel, slog.SuccessLevel, slog.FailLevel, slog.Level(40), slog.Level(-3)}
+		for pass, format := range []string{"default", "json", "logfmt", "color", "color-without-colours"} {
+			if format == "color-without-colours" {
+				// the application took the colours of every severity away
+				for _, sv := range negSevs {
+					slog.SetLevelColors(sv, color.NoColor, color.NoColor)
 				}
-				sevs := []slog.Level{e.sev}
-				if !e.fixed {
-					sevs = []slog.Level{slog.ErrorLevel, slog.WarnLevel, slog.InfoLevel, slog.DebugLevel, slog.TraceLevel, slog.OffLevel, slog.AlwaysLevel, slog.OKLevel, slog.SuccessLevel, slog.FailLevel, slog.Level(40), slog.Level(-3)}
+			}
+			for _, kind := range []string{"root", "child", "default"} {
+				lgL := slog.New(fmt.Sprintf("neg%d", pass))
+				lg := lgL.Root()
+				if kind == "child" {
+					lg = lg.New("kid")
 				}
-				for _, s := range sevs {
-					if s == slog.PanicLevel || s == slog.FatalLevel {
+				lg.SetWriter(f).SetErrorWriter(f).SetLevel(slog.AlwaysLevel)
+				switch format {
+				case "json":
+					lg.SetJSONMode(true)
+				case "logfmt":
+					lg.SetColorMode(false)
+				case "color", "color-without-colours":
+					lg.SetColorMode(true)
+				}
+				if kind == "default" {
+					slog.SetDefault(lgL)
+				}
+				for _, e := range entryPoints() {
+					if e.pkg != (kind == "default") {
 						continue
 					}
-					at = fmt.Sprintf("%s on %s severity %v", e.name, kind, s)
-					e.call(lg, context.Background(), s)
+					sevs := []slog.Level{e.sev}
+					if !e.fixed {
+						sevs = negSevs
+					}
+					for _, s := range sevs {
+						if s == slog.PanicLevel || s == slog.FatalLevel {
+							continue
+						}
+						at = fmt.Sprintf("%s on %s (%s) severity %v", e.name, kind, format, s)
+						e.call(lg, context.Background(), s)
+						calls++
+					}
+				}
+				// log/slog levels that are not named constants (between, above and far from the named ones): Log maps them to
+				// some severity, never to a terminating one
+				for _, n := range []int{-100, -9, -5, 1, 5, 9, 12, 13, 14, 15, 18, 19, 20, 21, 100, 1 << 20, -(1 << 20)} {
+					at = fmt.Sprintf("Log(log/slog level %d) on %s (%s)", n, kind, format)
+					lg.Log(context.Background(), stdslog.Level(n), "odd log/slog level", "n", n)
 					calls++
 				}
 			}
